@@ -204,6 +204,28 @@ func (w *World) doOp() {
 		w.S.Stat("op.restart")
 		w.summary = append(w.summary, "restart")
 		w.killDaemon(false)
+		if w.prof.NetInUse && w.C.Prob(1, 3) {
+			// while the daemon is down another process binds a port that had been handed out to a pod
+			var cands []*Container
+			for _, c := range w.conts {
+				if c.Phase == "up" && len(c.Mappings) > 0 {
+					cands = append(cands, c)
+				}
+			}
+			if len(cands) > 0 {
+				c := cands[w.C.Choose(len(cands))]
+				m := c.Mappings[w.C.Choose(len(c.Mappings))]
+				if w.Net.BindForeign(m.Proto, m.HostPort) {
+					if c.Lost == nil {
+						c.Lost = map[string]bool{}
+					}
+					c.Lost[fmt.Sprintf("%s/%d", m.Proto, m.HostPort)] = true
+					w.S.Stat("fault.net.inuse-during-restart")
+					w.S.Sig("F:net.inuse.restart")
+					w.unscripted++
+				}
+			}
+		}
 	case "foreign":
 		w.foreignOp()
 	case "tick":
@@ -387,6 +409,14 @@ func (w *World) kubeletStatus(c *Container, ip string) {
 		} else {
 			st["podIP"] = ip
 			st["phase"] = "Running"
+			if w.prof.GC || w.prof.States {
+				// the pod's containers start in the new sandbox
+				kind := "running"
+				if w.C.Prob(1, 4) {
+					kind = "waiting"
+				}
+				st["containerStatuses"] = []interface{}{map[string]interface{}{"name": "c", "state": map[string]interface{}{kind: map[string]interface{}{}}}}
+			}
 		}
 	})
 }
@@ -465,7 +495,8 @@ func (w *World) onReady() {
 	// a start-time synchronisation installs the mappings of every pod that has an IP in the API server; for a sandbox
 	// that was dead already these rules are not something the container left behind (C17 makes no claim about them)
 	for _, c := range w.conts {
-		if w.starts > 1 && len(c.Mappings) > 0 && w.truthDead(c.ID) {
+		st, _, _ := w.runtimeState(c.ID)
+		if w.starts > 1 && len(c.Mappings) > 0 && (dockerDead(st) || criState(st) != "ready") {
 			c.resynced = true
 		}
 	}
